@@ -13,7 +13,9 @@ Tr == Traces[tid].ev
 Max2(a, b) == IF a > b THEN a ELSE b
 SeqToSet(s) == { s[i] : i \in 1..Len(s) }
 
-TrNames == { <<>>, <<"a">>, <<"a", "b">>, <<"a", "b", "c">>, <<"a", "c">>, <<"b">>, <<"a", "b", "d">>, <<"b", "a">> }
+TrNames == { <<>>, <<"a">>, <<"a", "b">>, <<"a", "b", "c">>, <<"a", "c">>, <<"b">>, <<"a", "b", "d">>, <<"b", "a">>,
+             \* long histories: prefixes four to six components deep
+             <<"a", "b", "d", "e">>, <<"a", "b", "d", "e", "f">>, <<"a", "b", "d", "e", "f", "g">>, <<"b", "a", "e", "f">> }
 TrHandlers == 1..64
 TrNone == {}
 TrVerdicts == {"PASS", "FAIL", "TIMEOUT", "SILENCE", "BYPASS", "T", "F", "RAISE"}
